@@ -1,6 +1,7 @@
 SPECIFICATION SimSpec
 CONSTANTS
-  CKeys = {"k1", "k2", "k3"}
+  CKeys = {"k1", "k2", "kn1"}
+  CfgTenant <- [StateMachine] CfgTenantNs
   Contents = {"a", "b", "c"}
   NsIds = {"n1", "n2"}
   NsNames = {"x", "y"}
